@@ -237,6 +237,16 @@ def lattice4200_queries(tier):
         for l in (12, 18):
             for rev in (False, True):
                 out.append(([pal], dict(window=[9, s, l], reverse=rev, lattice=4200, palindromic=True), worlds.window_query(pal, s, l, rev)[0][2]))
+    # tight references (one label a few seeding bins in front of and behind the molecule): one strand's correlation of the molecule - or
+    # of its mirror image - often has no peak at all
+    for k in (8, 11) if tier == 'quick' else (8, 10, 11, 12, 13, 15):
+        for before, after in ((5600.0, 4200.0), (2800.0, 7000.0), (4200.0, 4200.0)):
+            base = worlds.catalogue_ref(k, 'lattice4200', 14, ref_id=1, lead=0.0)[2]
+            labels = [0.0] + [round(before + p - base[0], 1) for p in base]
+            labels.append(round(labels[-1] + after, 1))
+            tight = (1, labels[-1] + 1.0, labels)
+            for rev in (False, True):
+                out.append(([plain, tight], dict(window=[1, 1, 14], reverse=rev, lattice=4200, tight=[before, after]), worlds.window_query(tight, 1, 14, rev)[0][2]))
     for r, starts in ((ref, (4, 14, 19, 24, 30, 41, 48)), (plain, (5, 20))):
         for s in starts:
             for l in (14, 20):
@@ -281,7 +291,12 @@ def check_world(refs, pos, acc, key=None, setting=0):
     n = len(pos)
     extra = list((SETTINGS + SETTINGS_4200)[setting])
     o1 = driver.run_world(dict(refs=refs, queries=[q]), 'separate', extra=extra, extensions=[sink_seeds()], in_child=_nseg)
-    o2 = driver.run_world(dict(refs=refs, queries=[qm]), 'separate', extra=extra, extensions=[sink_seeds()], in_child=_nseg)
+    # the mirror image as a shell one-liner makes it (Position := ContigLength-1 - Position, row by row): its label rows run from the
+    # far end of the molecule, i.e. in DESCENDING coordinate order
+    from mc import cmaptext
+    rows = cmaptext.rows([qm])
+    mirror_text = cmaptext.text([qm], row_order=list(range(len(rows) - 2, -1, -1)) + [len(rows) - 1]) if len(pos) % 2 else None
+    o2 = driver.run_world(dict(refs=refs, queries=[qm], qry_text=mirror_text), 'separate', extra=extra, extensions=[sink_seeds()], in_child=_nseg)
     found = []
     case = dict(refs=[[m[0], m[1], list(m[2])] for m in refs], query=list(pos), setting=setting)
     if o1.error or o2.error:
